@@ -713,4 +713,77 @@ theorem addBin_spec (hpage : PageSpec) (s : PStore) (cap : Int) (grow : Int → 
     rw [hg]
     exact ⟨g', rfl, hrel⟩
 
+/-! ### `Reweight` -/
+
+/-- `AddWithCount` with a count other than 0 and 1 never touches the buffer: an equation, the capacity is kept,
+    the compaction bit of the model is irrelevant, and only `page` needs fuel -/
+theorem addWithCount_weight (hpage : PageSpec) (s : PStore) (cap : Int) (grow : Int → Int → Int) (i : Int)
+    (c : Rat) (b : Bool) (fuel : Nat) (h0 : c ≠ 0) (h1 : c ≠ 1) (hf2 : pageFuel s (s.pageIndex i) ≤ fuel) :
+    BufferedPaginatedStore.AddWithCount fuel grow (toGen s cap) i c
+      = toRes (fun s' => toGen s' cap) (s.addWithCount i c b) := by
+  unfold BufferedPaginatedStore.AddWithCount PStore.addWithCount
+  rw [if_neg (by simpa using h0), if_neg h0, if_neg (by simpa using h1), if_neg h1]
+  rw [gen_pageIndex]
+  dsimp only
+  rw [hpage s cap _ true fuel hf2]
+  cases hpg : s.page (s.pageIndex i) true with
+  | none => rfl
+  | some r =>
+    obtain ⟨s1, k?⟩ := r
+    obtain ⟨hlog, hslot⟩ := page_props s s1 _ true k? hpg
+    simp only [toRes_some, Res.bind_ok, gen_lineIndex]
+    cases k? with
+    | none =>
+      have : GoSem.idx (pageOf s1 none) ((s1.lineIndex i : Nat) : Int) = none := by
+        unfold GoSem.idx pageOf; rw [if_neg (by omega)]; rfl
+      rw [this]
+      rfl
+    | some k =>
+      obtain ⟨hk1, hk2, hk3⟩ := hslot k rfl
+      have hpo : pageOf s1 (some k) = (s1.pages.getD k #[]).toList := rfl
+      have hk3' : s.pageIndex i - (toGen s1 cap).minPageIndex = (k : Int) := by
+        rw [toGen_minPageIndex]; omega
+      rw [hpo, hk3', addAtPage_gen s1 cap k _ c hk1]
+      simp only [Option.bind_eq_bind, Option.bind_some]
+      cases s1.addAtPage k (s1.lineIndex i) c with
+      | none => rfl
+      | some s2 => rfl
+
+/-- the compaction bit only matters for a unit count -/
+theorem addWithCount_bit_irrelevant (s : PStore) (i : Int) (c : Rat) (b₁ b₂ : Bool) (h1 : c ≠ 1) :
+    s.addWithCount i c b₁ = s.addWithCount i c b₂ := by
+  unfold PStore.addWithCount
+  rw [if_neg h1, if_neg h1]
+
+/-- fuel for the re-insertion loop of `Reweight`: `page` for every buffered entry, along the model's run -/
+def reweightLoopFuel (w : Rat) : List Int → PStore → Nat
+  | [], _ => 0
+  | i :: rest, s =>
+    max (pageFuel s (s.pageIndex i))
+      (match s.addWithCount i w with
+        | none => 0
+        | some s' => reweightLoopFuel w rest s')
+
+theorem reweight_loop1_eq (hpage : PageSpec) (w : Rat) (h0 : w ≠ 0) (h1 : w ≠ 1) (cap : Int)
+    (grow : Int → Int → Int) (fuel : Nat) : ∀ (l : List Int) (s : PStore), reweightLoopFuel w l s ≤ fuel →
+    BufferedPaginatedStore.Reweight.loop1 fuel grow w l (toGen s cap)
+      = match l.foldlM (fun acc i => acc.addWithCount i w) s with
+        | none => .panic
+        | some s' => .done (toGen s' cap) := by
+  intro l
+  induction l with
+  | nil => intro s _; rfl
+  | cons i rest ih =>
+    intro s hf
+    rw [reweightLoopFuel] at hf
+    unfold BufferedPaginatedStore.Reweight.loop1
+    rw [addWithCount_weight hpage s cap grow i w true fuel h0 h1 (by omega)]
+    simp only [List.foldlM_cons, Option.bind_eq_bind]
+    cases hm : s.addWithCount i w true with
+    | none => rfl
+    | some s' =>
+      rw [hm] at hf
+      simp only [toRes_some, Res.bindL_ok, Option.bind_some]
+      exact ih s' (by simp only at hf; omega)
+
 end DDS.GenPag
